@@ -74,6 +74,8 @@ COLD_CORPUS = [
     (['tcmt', 'first line\n   \nlast line', ['list', [['int', 1]]]], {}),
     (TUPLE_KEYS, {'sort_dict_keys': True}),
     (FSET_KEYS, {'sort_dict_keys': True}),
+    (['std', 'chainmap', [[[['str', 'k'], ['int', 1]]], []]], {}),
+    (['list', [['std', 'chainmap', [[], [[['str', 'k'], ['int', 1]]], [], []]], ['std', 'deque', [['int', 1]], 3]]], {}),
     # a struct sequence whose repr cannot be parsed (D26: printed differently before / after the field names were resolved)
     (['std', 'struct_time_x', [['opaque', 1]] + [['int', j] for j in range(1, 9)]], {}),
     (['list', [['std', 'struct_time_x', [['int', 1], ['opaque', 2]] + [['int', j] for j in range(2, 9)]], ['std', 'struct_time', [2021, 1, 2, 3, 4, 5, 3, 2, 0]]]], {}),
